@@ -632,7 +632,10 @@ def main(rep, tier, only):
         rule_visit(rep, db, cfg)
     if only in (None, "WRAP"):
         rule_wrap(rep, db, cfg)
-    rep.extra["not_covered"] = ["binary_search", "equal_range", "unique", "unique_if", "reverse", "repeat", "generate_n", "split_string", "join_strings",
+    if only in (None, "WRAP2", "COUNT"):
+        from checks import c16_more
+        c16_more.rules(rep, db, INLINE)
+    rep.extra["not_covered"] = ["split_string", "join_strings",
                                 "map_iteration / sequence_iteration (end() re-evaluation and erase continuation only: ERASE-SAFE; progress: C01 LOOP)", "container::join / set operations / key_set / map_values",
                                 "array:: and tuple:: helpers (only the evaluation order of init: ORDER; value conservation: C05)", "static ranges (tuples, mpl lists)"]
     rep.explanation = ("Opaque functors make every call a named event; run-time ranges are unrolled twice (longer ranges end as a truncated prefix). "
